@@ -120,6 +120,7 @@ JudgeRepr(e) ==
   IF e.shape # 1 THEN V("Repr.NotAnExpressionOverFmtfuncs", FALSE)
   ELSE IF e.ev.k # "ok" THEN V("Repr.DoesNotEvaluate", FALSE)
   ELSE IF Cells(e.ev.v) # Cells(e.f) THEN V("Repr.RoundTrip", FALSE)
+  ELSE IF e.evshows # e.fshows THEN V("Repr.EvaluatesToWhatTheValueDisplays", FALSE)   \* the terminal strings, lexed: same characters under the same graphic state
   ELSE V("ok", TRUE)
 
 (* ---------------------------------------------------------------- C05 *)
